@@ -170,6 +170,11 @@ pub fn get_margin_ratio_calc_option(
         unrealized_pnl,
     } = get_position_notional_unrealized_pnl(deps, &position, calc_option)?;
 
+    // a dust position can be worth less than one unit at this price: there is no ratio to speak of
+    if position_notional.is_zero() {
+        return Ok(Integer::zero());
+    }
+
     let remain_margin = calc_remain_margin_with_funding_payment(deps, position, unrealized_pnl)?;
 
     let margin_ratio = ((Integer::new_positive(remain_margin.margin)
